@@ -751,6 +751,15 @@ def _sb_call_kwarg(ex, st, args, kwargs):
     yield st, kw[key]
 
 
+def _sb_call_kwarg_names(ex, st, args, kwargs):
+    """call_kwarg_names('name'): the (sorted) keyword names of the single recorded call."""
+    (name,) = args
+    calls = [ev for ev in st.trace if ev[0] == "call" and ev[1] == name]
+    if len(calls) != 1:
+        raise Unsupported(f"call_kwarg_names: {len(calls)} recorded calls of {name}")
+    yield st, tuple(sorted(k for k, _ in calls[0][4]))
+
+
 def _sb_loops_exhausted(ex, st, args, kwargs):
     """Every (invariant-cut) loop on this path ended because its iterable was exhausted, not by break."""
     yield st, all(done for _, done in st.ghost.get("loops", ()))
@@ -776,7 +785,7 @@ def _sb_py_int_strip(ex, st, args, kwargs):
     yield st, (SV("str", bm.strip_term(bm.sstr(s), "int")) if is_sym(s) else s.strip(" \t\n\x0b\x0c\r"))
 
 
-SPEC_BUILTINS = {"digit_at": _sb_digit_at, "char_in_token": _sb_char_in_token, "lstrip_noop": _sb_lstrip_noop, "char_of_slice": _sb_char_of_slice, "find_in": _sb_find_in, "rfind_in": _sb_rfind_in, "split_first": _sb_split_first, "last_of": _sb_last_of, "strip_noop": _sb_strip_noop, "chars_at": _sb_chars_at, "digit_chars": _sb_digit_chars, "leading_zeros": _sb_leading_zeros, "digits_only": _sb_digits_only, "head_of": _sb_head_of, "py_int": _sb_py_int, "py_int_ok": _sb_py_int_ok, "nat_shift": _sb_nat_shift, "char_at": _sb_char_at, "int_of_digits": _sb_int_of_digits, "substr_at": _sb_substr_at, "strip_core": _sb_strip_core, "cut_at": _sb_cut_at, "excludes": _sb_excludes, "int_padded": _sb_int_padded, "py_int_strip": _sb_py_int_strip, "py_repr": _sb_py_repr, "loops_exhausted": _sb_loops_exhausted, "call_kwarg": _sb_call_kwarg, "some": _sb_some, "index_at": _sb_index_at, "strip_blank": _sb_strip_blank, "pos_of": _sb_pos_of, "call_arg": _sb_call_arg, "unmodified": _sb_unmodified, "uf": _sb_uf, "called": _sb_called, "py_isalpha": _sb_py_isalpha, "py_isdigit": _sb_py_isdigit, "int_of_signed": _sb_int_of_signed, "strip_padded": _sb_strip_padded, "strip_unique": _sb_strip_unique, "py_strip": _sb_py_strip, "pad": _sb_pad, "matches": _sb_matches, "nat": _sb_nat, "key_at": _sb_key_at, "val_at": _sb_val_at,
+SPEC_BUILTINS = {"call_kwarg_names": _sb_call_kwarg_names, "digit_at": _sb_digit_at, "char_in_token": _sb_char_in_token, "lstrip_noop": _sb_lstrip_noop, "char_of_slice": _sb_char_of_slice, "find_in": _sb_find_in, "rfind_in": _sb_rfind_in, "split_first": _sb_split_first, "last_of": _sb_last_of, "strip_noop": _sb_strip_noop, "chars_at": _sb_chars_at, "digit_chars": _sb_digit_chars, "leading_zeros": _sb_leading_zeros, "digits_only": _sb_digits_only, "head_of": _sb_head_of, "py_int": _sb_py_int, "py_int_ok": _sb_py_int_ok, "nat_shift": _sb_nat_shift, "char_at": _sb_char_at, "int_of_digits": _sb_int_of_digits, "substr_at": _sb_substr_at, "strip_core": _sb_strip_core, "cut_at": _sb_cut_at, "excludes": _sb_excludes, "int_padded": _sb_int_padded, "py_int_strip": _sb_py_int_strip, "py_repr": _sb_py_repr, "loops_exhausted": _sb_loops_exhausted, "call_kwarg": _sb_call_kwarg, "some": _sb_some, "index_at": _sb_index_at, "strip_blank": _sb_strip_blank, "pos_of": _sb_pos_of, "call_arg": _sb_call_arg, "unmodified": _sb_unmodified, "uf": _sb_uf, "called": _sb_called, "py_isalpha": _sb_py_isalpha, "py_isdigit": _sb_py_isdigit, "int_of_signed": _sb_int_of_signed, "strip_padded": _sb_strip_padded, "strip_unique": _sb_strip_unique, "py_strip": _sb_py_strip, "pad": _sb_pad, "matches": _sb_matches, "nat": _sb_nat, "key_at": _sb_key_at, "val_at": _sb_val_at,
                  "same_dict": _sb_same_dict}
 
 
